@@ -11,6 +11,8 @@
    where documented, largest value of the field width and the first beyond) x every public call: the request carries the value
    in the documented place (table = NnasSet.fields / NascSet.fields of the Lean model, proved for all values), has the fields it
    has for ordinary values, is not refused; sequences on one object (ordinary value, call, boundary value, call).
+5. Transport knobs in behaviour (harness/api_behaviour.py) and the nex.* settings at the consumer that puts structures on the wire
+   (harness/api_wire.py): a real RMCClient on every kind of connection and negotiated minor version, client and server side.
 """
 import importlib, inspect, json, logging, os, re
 import anyio
@@ -716,7 +718,12 @@ def run(ctx):
                 "public call (11 nnas call shapes, 2 nasc, hpp.request, the Switch calls at three system versions): carried in the documented place exactly once, "
                 "same fields as for ordinary values, accepted; on one object: ordinary value, call, boundary value, call; boundary value then another setter; "
                 "behaviour: two or more values of prudp.resend_timeout / resend_limit / ping_timeout / fragment_size / max_substream_id measured on real endpoints in "
-                "virtual time (silent peer, link dying mid-session, idle connection, fragmentation, substreams), each session replayed through the Lean L1 model. "
+                "virtual time (silent peer, link dying mid-session, idle connection, fragmentation, substreams), each session replayed through the Lean L1 model; "
+                "nex.* at the RMC layer (harness/api_wire.py): nex.struct_header x nex.pid_size / nex.version / nex.client_version (7 combinations) x connection kind "
+                "(prudp v0, v1, 2, lite) x minor versions of both ends (0..5 equal, mismatched, seeded) x the four shipped files, through real rmc.connect + "
+                "BackEndClient / AuthenticationClient calls against a raw PRUDP endpoint and real rmc.serve / serve_on_transport against a raw PRUDP client, several "
+                "calls per connection: request / response bodies and decoded values equal the encoding the caller's settings describe (independent encoder; "
+                "Lean model NxModel/Api/Wire.lean). "
                 "A case is non-trivial when it "
                 "reaches the code under test; distinct = distinct (kind, inputs)")
     api_inventory.run(ctx)
@@ -748,6 +755,8 @@ def run(ctx):
     construct_checks(ctx)
     import api_behaviour
     api_behaviour.run(ctx, ctx.driver("C02"))
+    import api_wire
+    api_wire.run(ctx, drv)
     ctx.traces_validated += len(diffs) * 0 + ctx.evaluations
     for name in sorted(failed):
         if not [v for v in ctx.violations if not v[3]]:
